@@ -29,7 +29,7 @@ TECHNIQUE = 'translation validation of each emitted program with z3 + contract (
 def families(tier, seed):
     out = list()
     out.append(dict(name='programs: all Boolean functions of 2 bits', run=cgen.tv_boolean_programs(seed, 0, 2), label='bounded'))
-    for nb, k in ((3, 12), (4, 12), (5, 9)) if tier == 'quick' else ((3, 60), (4, 60), (5, 45), (6, 30)):
+    for nb, k in ((3, 12), (4, 12), (5, 9)) if tier == 'quick' else ((3, 300), (4, 300), (5, 200), (6, 120), (7, 40)):
         out.append(dict(name=f'programs: {k} seeded random functions of {nb} bits', run=cgen.tv_boolean_programs(seed + nb, k, nb), label='bounded'))
     out.append(dict(name='_dumps_node / _latch_ref case analysis', run=lambda: cc.verify_circuit(cgen.h_dumps_node), label='unbounded'))
     out.append(dict(name='int <-> bits conversion window', run=cgen.conv_window(8 if tier == 'quick' else 17), label='bounded'))
